@@ -1,7 +1,14 @@
 import FranzVerif.Model.Producer
 import FranzVerif.Proof.Producer
 import FranzVerif.Proof.ProducerFacts
-/-! C14 (produce half) — buffered/unbuffered hooks pair up exactly once per record, with the promise's error. -/
+import FranzVerif.Model.Consumer
+import FranzVerif.Proof.Consumer
+import FranzVerif.Proof.ConsumerInv
+import FranzVerif.Proof.ConsumerFacts
+/-! C14 — buffered/unbuffered hooks pair up exactly once per record, with the promise's error (produce half,
+about `Model.Producer`), and every fetched record passed to the unbuffered hook was passed to the buffered
+hook before, all of them by the time the client is closed (fetch half, about `Model.Consumer`, the theorems
+named `fetch_…` in the second `namespace Props.C14` block). -/
 namespace Props.C14
 open Model.Producer Proof.Producer
 
@@ -57,5 +64,55 @@ example : accepts { maxRecs := 1, maxBytes := 0, manual := false }
      .hookU 1 .ok, .promise 1 .ok, .release 1 0 0,
      .unblock 2, .admit 2 1 2 2, .ret 2, .hookU 2 .ok, .promise 2 .ok, .release 2 0 0,
      .flushEnd 1 true, .closeStart, .closeEnd, .quiesce 0 0] = true := by decide
+
+end Props.C14
+
+/-! ## fetch half (`Model.Consumer`) -/
+namespace Props.C14
+open Model.Consumer Proof.Consumer
+
+/-- A fetched record is passed to the unbuffered hook only after it was passed to the buffered hook: in
+every accepted history, at every moment (for every prefix `p`), the multiset of `(partition, offset)`
+pairs given to `OnFetchRecordUnbuffered` is included in the multiset given to `OnFetchRecordBuffered`. -/
+theorem fetch_unbuffered_only_after_buffered (c : Cfg) (h : List Ev) (s : St) (hacc : run c {} h = some s)
+    (p : List Ev) (hp : p <+: h) (x : Nat × Nat) :
+    (unbufferedHooks p).count x ≤ (bufferedHooks p).count x := by
+  obtain ⟨t, rfl⟩ := hp
+  obtain ⟨s₁, h1⟩ := run_prefix hacc
+  have := (inv_of_run h1).buf x
+  omega
+
+/-- At a quiescent point (client closed) the two hooks have paired up exactly — every record given to the
+buffered hook was given to the unbuffered hook exactly as often — and the `BufferedFetchRecords` gauge
+was observed and its last observed value is 0. -/
+theorem fetch_hooks_pair_exactly_at_quiescence (c : Cfg) (h : List Ev) (s : St)
+    (hacc : run c {} (h ++ [Ev.quiesce]) = some s) :
+    (∀ x, (unbufferedHooks h).count x = (bufferedHooks h).count x) ∧ Ev.gauge 0 ∈ h ∧ lastGauge h = some 0 := by
+  obtain ⟨s₁, h1, hchk⟩ := run_snoc hacc
+  have hi := inv_of_run h1
+  have hq := quiesce_check hchk
+  have hg : lastGauge h = some 0 := by rw [← hi.gauge]; exact hq.gauge
+  refine ⟨fun x => ?_, mem_of_lastGauge hg, hg⟩
+  have := hi.buf x
+  rw [hq.buffered] at this
+  simpa using this
+
+/-- Non-vacuity: an accepted history where records are buffered by a fetch, some unbuffered by polls and
+one (offset 2) unbuffered without being polled when the client is closed; gauge 0 at the end. -/
+example : accepts { committed := false, keepCtl := false, start := 0 }
+    [.produced 1 0 0 0, .produced 2 0 1 0, .produced 3 0 2 0, .incomplete,
+     .hookBuf 0 0, .hookBuf 0 1, .hookBuf 0 2,
+     .pollStart, .returned 0 0 1 false, .hookUnbuf 0 0 true, .returned 0 1 2 false, .hookUnbuf 0 1 true, .pollEnd,
+     .hookUnbuf 0 2 false, .gauge 0, .quiesce] = true := by decide
+
+/-- The monitor refuses an unbuffered hook without a buffered one, a record left buffered, and a non-zero gauge. -/
+example : accepts { committed := false, keepCtl := false, start := 0 }
+    [.hookBuf 0 0, .hookUnbuf 0 0 true, .hookUnbuf 0 0 true] = false := by decide
+example : accepts { committed := false, keepCtl := false, start := 0 }
+    [.hookBuf 0 0, .hookBuf 0 1, .hookUnbuf 0 0 true, .gauge 0, .quiesce] = false := by decide
+example : accepts { committed := false, keepCtl := false, start := 0 }
+    [.hookBuf 0 0, .hookUnbuf 0 0 true, .gauge 1, .quiesce] = false := by decide
+example : accepts { committed := false, keepCtl := false, start := 0 }
+    [.hookBuf 0 0, .hookUnbuf 0 0 true, .quiesce] = false := by decide
 
 end Props.C14
